@@ -39,6 +39,8 @@ THEOREMS = [
     "Qentem.Props.C20.hex4_value",
     "Qentem.Props.C20.hex4_roundtrip",
     "Qentem.Props.C20.hexToNumber_hex4",
+    "Qentem.Props.C20.hexLoopW_is_hexLoop",
+    "Qentem.Props.C20.hex_value_any_width",
     "Qentem.Props.C20.surrogate_pair",
     "Qentem.Props.C20.high_surrogate_test",
     "Qentem.Props.C20.unEscape_never_faults",
@@ -157,7 +159,13 @@ def run(ctx):
         return
     rng = ctx.rng
 
-    def both(lines, jobs=JOBS):
+    # second build with String<Char_T> as the stream type.  The library itself only instantiates StringStream, so a tree
+    # in which String no longer satisfies Stream_T is recorded, not reported.
+    exe_str, msg = core.build_cpp("unicode_harness.cpp", flags=core.SAN_FLAGS + ["-DUNI_STRING_STREAM=1"], tag="san_str")
+    if exe_str is None:
+        ctx.notes.append("String<Char_T> is not usable as Stream_T of ToUTF/UnEscape on this tree (String-stream lines skipped): " + msg[-400:])
+
+    def both(lines, jobs=JOBS, exe=exe):
         impl, faults = core.run_lines_parallel(exe, lines, jobs=jobs)
         model, _ = core.run_lines_parallel(drv, lines, jobs=jobs, env=None)
         for i, kind, err in faults:
@@ -183,19 +191,28 @@ def run(ctx):
                          {"line": l.split(" => ")[0], "expected": l.split(" => ")[1], "impl_output": o})
 
     # ---- S2 exhaustive: every scalar value x 3 widths x 4 modes ----------------------------------
+    # A tree on which (nearly) every batch dies in the sanitizer costs one process restart per batch; a canary of every
+    # 64th batch decides whether the sweep is run in full (always, on a tree without mass faults) or thinned (failing run).
+    batches = list(scalar_batches())
+    canary = [("uni_enc %s %d %d" % (w, lo, hi)) if m == "d" else ("uni_esc %s %s %d %d" % (w, m, lo, hi))
+              for w in WIDTHS for m in MODES for lo, hi in batches[::64]]
+    cimpl, _ = core.run_lines_parallel(exe, canary, jobs=JOBS)
+    if sum(1 for o in cimpl if o.startswith("FAULT")) > 40:
+        batches = batches[::32]
+        ctx.notes.append("sanitizer faults on more than 40 of %d canary batches: exhaustive sweep thinned to every 32nd batch" % len(canary))
     lines = []
     for w in WIDTHS:
         for m in MODES:
-            for lo, hi in scalar_batches():
+            for lo, hi in batches:
                 lines.append(("uni_enc %s %d %d" % (w, lo, hi)) if m == "d" else ("uni_esc %s %s %d %d" % (w, m, lo, hi)))
     nlines_oracle = len(lines)
     # capital \\U is accepted by the routine but is not RFC 8259: correspondence only, no oracle
     for w in WIDTHS:
-        for lo, hi in list(scalar_batches())[:: (8 if not ctx.thorough else 1)]:
+        for lo, hi in batches[:: (8 if not ctx.thorough else 1)]:
             lines.append("uni_esc %s U %d %d" % (w, lo, hi))
     impl, model = both(lines)
     bad = ctx.correspond("all-scalars(3 widths x direct/lower/upper/in-context), %d code points per line" % BATCH, lines, impl, model)
-    ncp = sum(hi - lo for lo, hi in scalar_batches())
+    ncp = sum(hi - lo for lo, hi in batches)
     ctx.count("code points covered by the exhaustive stream (scalars x widths x modes)", ncp * len(WIDTHS) * len(MODES), ncp * len(WIDTHS) * len(MODES))
     for i in bad[:5]:
         cp, a, b = find_bad_cp(lines[i], impl[i], model[i])
@@ -253,6 +270,8 @@ def run(ctx):
     # ---- S2 UnEscape on generated strings --------------------------------------------------------
     gl = []          # generic lines
     expect = {}      # line -> (expected code points, expected return)  for well-formed inputs
+    fl = []          # the same inputs with a destination that has 0..6 free units / is a String
+    twin = [0]
 
     def add(w, pre, units, exp=None):
         maxu = 256 if w == "1" else (65536 if w == "2" else 1 << 32)
@@ -261,6 +280,13 @@ def run(ctx):
         gl.append(l)
         if exp is not None:
             expect[l] = exp
+        twin[0] += 1
+        if twin[0] % 4 == 0:
+            # the same input into a destination with exactly k free units (StringStream) / into a String
+            l2 = "uni_unf %s %s %d %s %s" % (w, "S" if twin[0] % 20 else "T", (twin[0] // 4) % 7, core.show_units(pre), core.show_units(units))
+            fl.append(l2)
+            if exp is not None:
+                expect[l2] = exp
 
     # (a) exhaustive short strings over an escape-fragment alphabet: \ u " D 8 0 n LF
     L = 5 if not ctx.thorough else 6
@@ -326,23 +352,118 @@ def run(ctx):
     impl, model = both(gl)
     ctx.correspond("UnEscape on generated strings (every escape kind, surrogate boundaries, all truncations, exact-size buffers)",
                    gl, impl, model, nontrivial=lambda l: "92" in l.split(" ")[3].split(","))
-    # S3: on the well-formed inputs the decoded stream is the denoted text and the whole body is consumed
+    def denotation_oracle(lines_, impl_, label):
+        # S3: on the well-formed inputs the decoded stream is the denoted text and the whole body is consumed
+        olines, oidx = [], []
+        for i, l in enumerate(lines_):
+            if l in expect and "|" in impl_[i]:
+                olines.append("uni_dec %s %s" % (l.split(" ")[1], impl_[i].split("|")[1]))
+                oidx.append(i)
+        dec, _ = core.run_lines_parallel(drv, olines, jobs=JOBS, env=None)
+        for j, d in enumerate(dec):
+            i = oidx[j]
+            cps, consumed = expect[lines_[i]]
+            want = "%d|%s" % (consumed, core.show_units(cps))
+            got = "%s|%s" % (impl_[i].split("|")[0], d)
+            if got != want:
+                ctx.fail("oracle:unescape-w" + lines_[i].split(" ")[1],
+                         "UnEscape on a well-formed string: consumed|decoded text = %s, the string denotes %s (%s)" % (got, want, lines_[i]),
+                         {"line": lines_[i], "impl_output": impl_[i], "decoded": d, "expected": want})
+        ctx.count(label, len(olines), len(set(olines)))
+
+    denotation_oracle(gl, impl, "UnEscape denotation oracle (well-formed strings)")
+    flS = [l for l in fl if l.split(" ")[2] == "S"]
+    flT = [l for l in fl if l.split(" ")[2] == "T"] if exe_str else []
+    impl, model = both(flS)
+    ctx.correspond("UnEscape into a StringStream with exactly 0-6 free units", flS, impl, model,
+                   nontrivial=lambda l: "92" in l.split(" ")[5].split(","))
+    if flT:
+        implT, modelT = both(flT, exe=exe_str)
+        ctx.correspond("UnEscape into a String", flT, implT, modelT, nontrivial=lambda l: "92" in l.split(" ")[5].split(","))
+        denotation_oracle(flT, implT, "UnEscape denotation oracle, String as stream")
+    fl = flS
+    for i, o in enumerate(impl):
+        if o == "cap-mismatch":
+            ctx.infra_errors.append("harness could not set up the requested free capacity (QENTEM_VERIF hook missing?): " + fl[i])
+            break
+    denotation_oracle(fl, impl, "UnEscape denotation oracle, controlled capacity")
+
+    # ---- S2 the encoder and UnEscape with a destination that is exactly full / has 1..4 free units ---
+    # (StringStream grows to exactly the requested capacity under QENTEM_VERIF, so a write that was not
+    #  preceded by a sufficient capacity check lands in the ASan redzone).  Whole stream is compared,
+    #  prefill included.  Sequence length classes are what matters, so the scalar range is sampled at its
+    #  boundaries plus every 128th batch; all five capacities x three prefill lengths x four widths.
+    edge = [(0, 256), (0x780, 0x880), (0xD700, 0xD800), (0xE000, 0xE100), (0xFF80, 0x10000), (0x10000, 0x10100), (0x10FF00, 0x110000)]
+    step = 128 if not ctx.thorough else 8
+    sample = edge + list(scalar_batches())[5::step]
+    lines = []
+    for w in WIDTHS + ("W",):
+        for p in (0, 1, 5):
+            for k in (0, 1, 2, 3, 4):
+                for lo, hi in sample:
+                    lines.append("uni_encf %s S %d %d %d %d" % (w, p, k, lo, hi))
+        for p in (0, 2):
+            for lo, hi in sample[:: 2]:
+                lines.append("uni_encf %s T %d 0 %d %d" % (w, p, lo, hi))
+    nenc = len(lines)
+    for w in WIDTHS:
+        for mode in ("l", "c"):
+            for p in (0, 3):
+                for k in (0, 1, 2, 3, 5):
+                    for lo, hi in sample[:: 2]:
+                        lines.append("uni_escf %s S %s %d %d %d %d" % (w, mode, p, k, lo, hi))
+            for lo, hi in sample[:: 4]:
+                lines.append("uni_escf %s T %s 2 0 %d %d" % (w, mode, lo, hi))
+    isT = [l.split(" ")[2] == "T" for l in lines]
+    impl, model = [None] * len(lines), [None] * len(lines)
+    for flag, ex in ((False, exe), (True, exe_str)):
+        idx = [i for i in range(len(lines)) if isT[i] == flag]
+        if ex is None or not idx:
+            continue
+        a, b = both([lines[i] for i in idx], exe=ex)
+        for j, i in enumerate(idx):
+            impl[i], model[i] = a[j], b[j]
+    keep = [i for i in range(len(lines)) if impl[i] is not None]
+    nenc = sum(1 for i in keep if i < nenc)
+    lines, impl, model = [lines[i] for i in keep], [impl[i] for i in keep], [model[i] for i in keep]
+    ctx.correspond("ToUTF (both entry points) and UnEscape into a destination with p units and exactly k free units; String as Stream_T",
+                   lines, impl, model)
+    ctx.count("code points covered by the capacity stream", sum(int(l.split(" ")[-1]) - int(l.split(" ")[-2]) for l in lines),
+              sum(int(l.split(" ")[-1]) - int(l.split(" ")[-2]) for l in lines))
     olines, oidx = [], []
-    for i, l in enumerate(gl):
-        if l in expect and "|" in impl[i]:
-            olines.append("uni_dec %s %s" % (l.split(" ")[1], impl[i].split("|")[1]))
+    for i, l in enumerate(lines):
+        o = impl[i]
+        if o == "cap-mismatch":
+            ctx.infra_errors.append("harness could not set up the requested free capacity (QENTEM_VERIF hook missing?): " + l)
+            break
+        if o.startswith("FAULT") or o.startswith("bad"):
+            continue
+        t = l.split(" ")
+        p = int(t[3] if i < nenc else t[4])
+        pre = core.show_units([97 + j % 26 for j in range(p)])
+        groups, ok = [], True
+        for g in o.split(";"):
+            head, body = (g.split(":") if i >= nenc else ("", g))
+            if p:
+                if not (body == pre or body.startswith(pre + ",")):
+                    ok = False
+                    ctx.fail("oracle:prefill-w" + t[1], "the units already in the destination were disturbed: %s -> %s" % (l, g),
+                             {"line": l, "impl_output": o[:2000]})
+                    break
+                body = body[len(pre) + 1:] or "-"
+            groups.append(body if i < nenc else head + ":" + body)
+        if ok:
+            mode = "d" if i < nenc else t[3]
+            olines.append("uni_orc %s %s %s %s %s" % (t[1], mode, t[-2], t[-1], ";".join(groups)))
             oidx.append(i)
-    dec, _ = core.run_lines_parallel(drv, olines, jobs=JOBS, env=None)
-    for j, d in enumerate(dec):
-        i = oidx[j]
-        cps, consumed = expect[gl[i]]
-        want = "%d|%s" % (consumed, core.show_units(cps))
-        got = "%s|%s" % (impl[i].split("|")[0], d)
-        if got != want:
-            ctx.fail("oracle:unescape-w" + gl[i].split(" ")[1],
-                     "UnEscape on a well-formed string: consumed|decoded text = %s, the string denotes %s (%s)" % (got, want, gl[i]),
-                     {"line": gl[i], "impl_output": impl[i], "decoded": d, "expected": want})
-    ctx.count("UnEscape denotation oracle (well-formed strings)", len(olines), len(set(olines)))
+    verdicts, _ = core.run_lines_parallel(drv, olines, jobs=JOBS, env=None)
+    for j, v in enumerate(verdicts):
+        if v != "ok":
+            i = oidx[j]
+            ctx.fail("oracle:capacity-w" + lines[i].split(" ")[1],
+                     "with a nearly full destination the standard decoder does not read back the code point (%s): %s" % (lines[i], v),
+                     {"line": lines[i], "verdict": v, "impl_output": impl[i][:4000]})
+    ctx.count("spec-decoder oracle on the capacity stream (lines)", len(olines), len(olines))
 
     # ---- S2 HexStringToNumber ---------------------------------------------------------------------
     hl = []
@@ -365,6 +486,46 @@ def run(ctx):
         if 0 < len(u) <= 8 and all(x in hexd for x in u):
             if o != str(int("".join(chr(x) for x in u), 16)):
                 ctx.fail("oracle:hex", "HexStringToNumber(%s) = %s" % ("".join(chr(x) for x in u), o), {"line": l, "impl_output": o})
+
+    # every overload x Number_T of 8/16/32/64 bits x offset type of 32/64 bits (the library's own instantiation is
+    # <SizeT64, Char_T, SizeT> from Digit::StringToNumber, the tests use the two-argument overload with SizeT64)
+    hw = []
+    for _ in range(8000 if not ctx.thorough else 150000):
+        n = rng.randrange(0, 22)
+        u = [rng.choice(hexd) if rng.random() < 0.95 else rng.choice([47, 58, 64, 71, 96, 103, 120, 0, 255]) for _ in range(n)]
+        w = rng.choice(WIDTHS + ("W",))
+        bits = rng.choice((8, 16, 32, 64, 64))
+        if rng.random() < 0.35:
+            hw.append("uni_hex2 %s %d %s" % (w, bits, core.show_units(u)))
+        else:
+            end = rng.randrange(0, n + 1)
+            off = rng.randrange(0, end + 1) if rng.random() < 0.9 else rng.randrange(0, n + 3)
+            hw.append("uni_hexw %s %d %d %d %d %s" % (w, bits, rng.choice((32, 64)), off, end, core.show_units(u)))
+    for bits in (8, 16, 32, 64):               # exactly full and one digit too many, both cases
+        for s_ in ("f" * (bits // 4), "F" * (bits // 4), "1" + "0" * (bits // 4), "8" + "0" * (bits // 4 - 1), "0x1f", ""):
+            hw.append("uni_hex2 1 %d %s" % (bits, core.show_units([ord(c) for c in s_])))
+            hw.append("uni_hexw 2 %d 32 0 %d %s" % (bits, len(s_), core.show_units([ord(c) for c in s_])))
+    impl, model = both(hw)
+    ctx.correspond("HexStringToNumber: both overloads x Number_T 8/16/32/64 bits x SizeT_Type 32/64 bits, offsets inside the buffer", hw, impl, model)
+    for l, o in zip(hw, impl):
+        t = l.split(" ")
+        u = [int(x) for x in t[-1].split(",")] if t[-1] != "-" else []
+        bits = int(t[2])
+        if t[0] == "uni_hexw":
+            off, end = int(t[4]), int(t[5])
+            seg = u[off:end] if off <= end else []
+            want = None
+            if all(x in hexd for x in seg):
+                want = "%d:%d" % ((int("".join(chr(x) for x in seg), 16) if seg else 0) % (1 << bits), max(off, end) if off <= end else off)
+        else:
+            want = str((int("".join(chr(x) for x in u), 16) if u else 0) % (1 << bits)) if all(x in hexd for x in u) else None
+        if want is not None and o != want:
+            ctx.fail("oracle:hexw", "%s = %s, positional value modulo 2^%d is %s" % (l, o, bits, want), {"line": l, "impl_output": o, "expected": want})
+
+    from checks import _c20_api
+    rows, uncovered, axes = _c20_api.audit()
+    ctx.notes.append({"public_api_not_driven": uncovered, "harness_instantiates": axes,
+                      "entry_points": ["%s(%s) %s" % (r[0], r[1], r[4]) for r in rows]})
 
     ctx.assumptions += [
         "code units and code points are Nat; Char_T(x) is x mod 2^(8w); SizeT32 arithmetic is written mod 2^32",
